@@ -167,9 +167,8 @@ def main(prop, tier, only=None):
         tot['solver_s'] += r['solver_s']
         tot['confirmed'] += r['confirmed']
         functions |= set(r.get('functions', []))
-        for s in r.get('samples', [])[:2]:
-            if len(samples) < 12:
-                samples.append({'obligation': o.name, 'fixed': _js(o.fixed), 'inputs': s})
+        for s in r.get('samples', [])[-2:]:
+            samples.append({'obligation': o.name, 'paths': r['paths'], 'fixed': _js(o.fixed), 'inputs': s})
         for kid, cnt in (r.get('known_hits') or {}).items():
             known_seen[kid] = known_seen.get(kid, 0) + cnt
         missing = [c for c in o.need if c not in r['cover']]
@@ -216,6 +215,9 @@ def main(prop, tier, only=None):
             discharged += 1
         per_ob.append(entry)
 
+    # samples: from the obligations that explored most paths (plus every counter-example)
+    samples = sorted([x for x in samples if 'counterexample' not in x], key=lambda x: -x.get('paths', 0))[:12] + \
+        [x for x in samples if 'counterexample' in x]
     wall = round(time.time() - t0, 2)
     # known findings of this property
     kf_lines = []
